@@ -1,9 +1,9 @@
 /- connection-level model driver (stub; see H2V/Model/Conn*.lean) -/
+partial def loop (hin : IO.FS.Stream) : IO Unit := do
+  let line ← hin.getLine
+  if line.isEmpty then return ()
+  IO.println "unmodelled"
+  loop hin
+
 def main : IO Unit := do
-  let hin ← IO.getStdin
-  let rec loop : IO Unit := do
-    let line ← hin.getLine
-    if line.isEmpty then return ()
-    IO.println "unmodelled"
-    loop
-  loop
+  loop (← IO.getStdin)
